@@ -452,6 +452,7 @@ type TRExt struct {
 	Net        TMNet        `json:"net"`
 	ZeroGrace  bool         `json:"zero_grace,omitempty"`
 	Pending    []TRPending  `json:"pending,omitempty"` // in-memory grace expectations at the start of the reconcile
+	FailGateway bool        `json:"fail_gateway,omitempty"` // every read of the gateway object (Ingress) fails during this reconcile
 }
 type TRPending struct {
 	Action  string `json:"action"`
@@ -637,11 +638,13 @@ func reconcileRolloutWorld(in RInput, ext *TRExt, objs []client.Object, ro *v1be
 			}
 		}()
 		var err error
+		wl.failIngressAll = ext != nil && ext.FailGateway
 		result, err = rec.Reconcile(context.TODO(), ctrl.Request{NamespacedName: types.NamespacedName{Namespace: "ns", Name: "ro"}})
 		if err != nil {
 			obs.Err = err.Error()
 		}
 	}()
+	wl.failIngressAll = false
 	obs.Requeue = result.RequeueAfter > 0 || result.Requeue
 	after := &v1beta1.Rollout{}
 	if err := cli.Get(context.TODO(), types.NamespacedName{Namespace: "ns", Name: "ro"}, after); err != nil {
